@@ -48,7 +48,8 @@ def comment_list(comment: None | str | list[str]):
     if isinstance(comment, str):
         comment = [comment]
 
-    return [f"-- {c}" for c in comment]
+    # every line of a multi-line comment needs its own comment marker
+    return [f"-- {line}" for c in comment for line in (str(c).splitlines() or [""])]
 
 
 class Statement:
@@ -135,7 +136,7 @@ class Comment(Statement):
         self.lines = lines
 
     def write(self, scope: VhdlScope):
-        return TextBlock([f"-- {line}" for line in self.lines])
+        return TextBlock(comment_list(self.lines))
 
 
 class Boolean(Expression):
